@@ -295,6 +295,7 @@ def to_fixed(lines, rng, labelled_do=True, conservative=True):
                 if o is not None and ENDDO_RE.match(code_txt) and not ln.comment:
                     pair[o] = i
     label_of_open, label_of_close = {}, {}
+    exec_label = {}  # body line index -> label it carries as terminal statement of a loop
     dropped = {}  # close line index -> close line index whose CONTINUE also terminates this loop (shared terminal label)
     shared_close = set()
     nxt = [10]
@@ -309,6 +310,15 @@ def to_fixed(lines, rng, labelled_do=True, conservative=True):
                 nxt[0] += 10
                 label_of_open[o] = lab
                 label_of_close[c] = lab
+                # executable terminal statement: the last statement of the body carries the label and END DO disappears
+                prev = max((k for k in code_idx if k < c), default=None)
+                if prev is not None and prev > o and prev not in label_of_close and prev not in label_of_open and prev not in dropped \
+                        and statement_is_safe(lines[prev]) and not DO_RE.match(lines[prev].raw) and rng.random() < 0.35 \
+                        and [t for t in lines[prev].tokens if t[0] != "ws"][0][1].lower() not in ("integer", "real", "type", "use", "character", "logical", "complex", "double"):
+                    del label_of_close[c]
+                    exec_label[prev] = lab
+                    dropped[c] = prev
+                    continue
                 # directly enclosing loops that end on the following code line may share the terminal statement
                 cur = c
                 while rng.random() < 0.5:
@@ -362,6 +372,9 @@ def to_fixed(lines, rng, labelled_do=True, conservative=True):
                     out_t.append(("num", str(label_of_open[i]), -1, ln.no))
                     done = True
             toks = out_t
+        if i in exec_label:
+            lab = str(exec_label[i])
+            label = (" " * rng.randint(0, 5 - len(lab)) + lab).ljust(5)
         if i in label_of_close:
             lab = str(label_of_close[i])
             label = (" " * rng.randint(0, 5 - len(lab)) + lab).ljust(5)
@@ -371,7 +384,7 @@ def to_fixed(lines, rng, labelled_do=True, conservative=True):
         # pieces of at most 72 columns, cut at token boundaries
         pieces = [[]]
         width = 6 + len(indent)
-        force_split = rng.random() < 0.25 and (not conservative or (statement_is_safe(ln) and i not in label_of_open and i not in label_of_close))
+        force_split = rng.random() < 0.25 and (not conservative or (statement_is_safe(ln) and i not in label_of_open and i not in label_of_close and i not in exec_label))
         ncode = len([t for t in toks if t[0] != "ws"])
         cut_after = rng.randint(1, max(1, ncode - 1)) if force_split and ncode >= 3 else None
         seen_code = 0
